@@ -155,7 +155,9 @@ func DelReq(keys ...string) Req {
 func MSetReq(kv ...string) Req {
 	return Req{Kind: "MSET", Bytes: world.Cmd(append([]string{"mset"}, kv...)...), Expect: []byte(world.ROK)}
 }
-func PingReq() Req { return Req{Kind: "PING", Bytes: world.Cmd("PING"), Expect: []byte(world.RPong), Local: true} }
+func PingReq() Req {
+	return Req{Kind: "PING", Bytes: world.Cmd("PING"), Expect: []byte(world.RPong), Local: true}
+}
 func QuitReq() Req {
 	return Req{Kind: "QUIT", Bytes: world.Cmd("quit"), Expect: []byte(world.ROK), Local: true, Closes: true}
 }
@@ -216,8 +218,8 @@ func SplitAt(data []byte, cuts ...int) []world.Chunk {
 type StreamOpts struct {
 	Kinds        [][]string // per client, per request: kind names (for signatures)
 	LocalIdx     func(ci, j int) bool
-	AllowMissing bool // completeness is not demanded (safety-only checks)
-	AnyError     func(ci, j int) bool // request j may be answered by any error reply
+	AllowMissing bool                   // completeness is not demanded (safety-only checks)
+	AnyError     func(ci, j int) bool   // request j may be answered by any error reply
 	Alt          func(ci, j int) []byte // per-execution second acceptable reply (nil: none)
 }
 
